@@ -111,7 +111,7 @@ class Sem(TL.Eval):
     def fold(self, f):
         """see target_lang.Eval.fold: what the step evaluates before its accumulator (for
         all rounds, outermost first), then the initial value, then what it evaluates after"""
-        f = TL.normal_run(f)
+        f = TL.normal_run(f, getattr(self, "fresh_binds", {}).get)
         marker = ("acc", tagstr(f.acc.tag))
         saved_abs, saved_execs = self.abstract, self.execs
         pos = {}
